@@ -690,7 +690,9 @@ func (lb *LoadBalancer) handleRequest(w http.ResponseWriter, r *http.Request, st
 		logging.WithContext(r.Context()).Warn().Str("path", r.URL.Path).Msg("no healthy backend available")
 		http.Error(w, "No healthy backend servers available", http.StatusServiceUnavailable)
 		lb.metricsCollector.RecordResponse(false, time.Since(startTime))
-		return nil
+		// Answered and recorded here. For the circuit breaker this is a failed request: nothing
+		// could be reached, and a half-open trial must not count it as a success
+		return errBackendFailure
 	}
 
 	// Process the request with the selected backend
